@@ -131,8 +131,15 @@ def m2(ctx):
         for t in tests:
             for m, l in t.succ:
                 if l == "f":
+                    reach_f = cfg.reachable([m])
                     for x in cfg.nodes:
-                        if x.id in cfg.reachable([m]) and x.kind == "stmt" and isinstance(x.ast, ast.Assign) and ctx.P.try_fold(fi.module, x.ast.value) == "404 Not Found":
+                        if x.id not in reach_f:
+                            continue
+                        # the status is a local assigned "404 Not Found", or the constant handed to the PropStatus that is returned
+                        if x.kind == "stmt" and isinstance(x.ast, ast.Assign) and ctx.P.try_fold(fi.module, x.ast.value) == "404 Not Found":
+                            ok404 = True
+                        if x.kind == "return" and x.ast.value is not None and any(
+                                isinstance(c_, ast.Constant) and c_.value == "404 Not Found" for c_ in ast.walk(x.ast.value)):
                             ok404 = True
         obs.append(ctx.ob(ok404, fi.qualname, fi.where, "unsupported property -> 404", "statuscode 404 Not Found", "an unsupported property is not answered with 404"))
     for pq, ct, rq in DATA_PROPS:
@@ -309,12 +316,32 @@ def m4(ctx):
     gp = ctx.func("xandikos.davcommon.get_properties_with_data")
     cfg = ctx.cfg(gp)
     du = DefUse(cfg)
-    stores = [n for n in cfg.stmt_nodes() if n.kind == "stmt" and isinstance(n.ast, ast.Assign) and any(isinstance(t, ast.Subscript) and dotted(t.value) == "properties" for t in n.ast.targets)]
-    ok = bool(stores)
-    for s in stores:
-        defs = du.reaching(s, "properties")
-        if not defs or not all(d.kind == "assign" and isinstance(d.value, ast.Call) and dotted(d.value.func) == "dict" for d in defs):
-            ok = False
+    # the caller's property table (4th parameter) is never modified in place: whatever is written to, updated or
+    # popped from must be a private object (dict(properties), {**properties, ...}, properties.copy())
+    p_tab = gp.params[3] if len(gp.params) > 3 else "properties"
+    p_data = gp.params[0] if gp.params else "data_property"
+    shared_mut = []
+    added = False
+    for n in cfg.stmt_nodes():
+        bases = []
+        if n.kind == "stmt" and isinstance(n.ast, (ast.Assign, ast.AugAssign, ast.Delete)):
+            tg = n.ast.targets if not isinstance(n.ast, ast.AugAssign) else [n.ast.target]
+            for t in tg:
+                if isinstance(t, ast.Subscript):
+                    bases.append(t.value)
+                    if isinstance(n.ast, ast.Assign) and p_data in {x.id for x in ast.walk(n.ast.value) if isinstance(x, ast.Name)}:
+                        added = True
+        for c in n.calls():
+            if isinstance(c.func, ast.Attribute) and c.func.attr in ("update", "setdefault", "pop", "popitem", "clear", "__setitem__"):
+                bases.append(c.func.value)
+        for b in bases:
+            if any(o.kind == "param" and o.name == p_tab and not o.path for o in origins(du, n, b)):
+                shared_mut.append(n)
+        for e in n.exprs():
+            for x in ast.walk(e):
+                if isinstance(x, ast.Dict) and any(isinstance(v, ast.Name) and v.id == p_data for v in x.values):
+                    added = True
+    ok = not shared_mut and added
     obs.append(ctx.ob(ok, gp.qualname, gp.where, "property table copied before the data property is added", "properties = dict(properties)",
                       "get_properties_with_data writes the data property into the shared property table: the answer for one href / one "
                       "report leaks into the next"))
